@@ -70,3 +70,14 @@ func vpt(e vev, p *EdwardsPoint) vev {
 	e["x"], e["y"], e["z"], e["t"] = vfe(&p.inner.X), vfe(&p.inner.Y), vfe(&p.inner.Z), vfe(&p.inner.T)
 	return e
 }
+
+// untrusted inversion certificates for the trace specification (see C25519!InvP): the claimed inverse of e
+func vinv(es ...*field.Element) [][]int {
+	var out [][]int
+	for _, e := range es {
+		var i field.Element
+		i.Invert(e)
+		out = append(out, vfe(&i))
+	}
+	return out
+}
